@@ -248,9 +248,13 @@ sse_rule_loadupib (OrcCompiler *compiler, void *user, OrcInstruction *insn)
         orc_sse_emit_movdqa (compiler, dest->alloc, tmp);
       } else {
 #endif
-        orc_sse_emit_pinsrw_memoffset (compiler, 0, offset, ptr_reg, dest->alloc);
+        /* one output element needs one source byte only: a 16-bit load
+         * would read past the last entitled element */
+        orc_x86_emit_mov_memoffset_reg (compiler, 1, offset, ptr_reg,
+            compiler->gp_tmpreg);
+        orc_sse_emit_movd_load_register (compiler, compiler->gp_tmpreg,
+            dest->alloc);
         orc_sse_emit_movdqa (compiler, dest->alloc, tmp);
-        orc_sse_emit_psrlw_imm (compiler, 8, tmp);
 #ifndef MMX
       }
 #endif
